@@ -24,6 +24,7 @@ type nilModel struct {
 	fieldElem  map[*types.Var]bool // slice elements / map keys+values may be nil
 	paramNil   map[*types.Var]bool
 	validators map[*types.Func]bool // func(x) bool that returns true only if x != nil
+	inverse    map[*types.Func]bool // func(x) bool that returns false only if x != nil (isBlank, isMissing)
 	funcs      []*FuncInfo          // parser methods + closures are handled inline
 	fieldWhy   map[*types.Var]string
 	pathsMu    sync.Mutex
@@ -47,7 +48,7 @@ func buildNilModel(w *World) *nilModel {
 	pm := w.parserModel()
 	nm := &nilModel{w: w, pm: pm, info: pm.info,
 		fnMayNil: map[*types.Func]bool{}, fnElemNil: map[*types.Func]bool{}, fieldNil: map[*types.Var]bool{}, fieldElem: map[*types.Var]bool{},
-		paramNil: map[*types.Var]bool{}, validators: map[*types.Func]bool{}, fieldWhy: map[*types.Var]string{}}
+		paramNil: map[*types.Var]bool{}, validators: map[*types.Func]bool{}, inverse: map[*types.Func]bool{}, fieldWhy: map[*types.Var]string{}}
 	nm.funcs = w.Funcs("parser") // methods of the parser and the plain functions beside them
 	info := nm.info
 	// validators: bool functions whose first statement is `if p == nil { ...; return [false] }`
@@ -56,8 +57,12 @@ func buildNilModel(w *World) *nilModel {
 		if sig.Params().Len() != 1 || sig.Results().Len() != 1 || !isBasicKind(sig.Results().At(0).Type(), types.Bool) || len(f.Decl.Body.List) == 0 {
 			continue
 		}
-		if assertionValidator(info, f) || nm.trueOnlyIfNonNil(info, w, f) {
+		if assertionValidator(info, f) || nm.trueOnlyIfNonNil(info, w, f, true) {
 			nm.validators[f.Obj] = true
+			continue
+		}
+		if nm.trueOnlyIfNonNil(info, w, f, false) {
+			nm.inverse[f.Obj] = true
 			continue
 		}
 		ifs, ok := f.Decl.Body.List[0].(*ast.IfStmt)
@@ -198,7 +203,10 @@ func assertionValidator(info *types.Info, f *FuncInfo) bool {
 // either yields the constant false, or sits where x is known to be non-nil
 // (under a successful type assertion of x, behind `x != nil`), or returns a
 // conjunction with the conjunct `x != nil`: it returns true only if x != nil.
-func (nm *nilModel) trueOnlyIfNonNil(info *types.Info, w *World, f *FuncInfo) bool {
+//
+// With want == false the mirror image: it returns false only if x != nil (every return yields the constant true, sits
+// where x is non-nil, or returns a disjunction with the disjunct `x == nil`).
+func (nm *nilModel) trueOnlyIfNonNil(info *types.Info, w *World, f *FuncInfo, want bool) bool {
 	sig := f.Obj.Type().(*types.Signature)
 	if sig.Results().At(0).Name() != "" {
 		return false
@@ -223,15 +231,23 @@ func (nm *nilModel) trueOnlyIfNonNil(info *types.Info, w *World, f *FuncInfo) bo
 			return false
 		}
 		e := ret.Results[0]
-		if tv := info.Types[e]; tv.Value != nil && tv.Value.ExactString() == "false" {
+		other := "false"
+		if !want {
+			other = "true"
+		}
+		if tv := info.Types[e]; tv.Value != nil && tv.Value.ExactString() == other {
 			continue
 		}
 		if nm.guarded(info, w, use, ret) {
 			continue
 		}
 		ok := false
-		for _, cj := range conjuncts(e) {
-			if be, isBE := unparen(cj).(*ast.BinaryExpr); isBE && be.Op == token.NEQ {
+		parts, op := conjuncts(e), token.NEQ
+		if !want {
+			parts, op = disjuncts(e), token.EQL
+		}
+		for _, cj := range parts {
+			if be, isBE := unparen(cj).(*ast.BinaryExpr); isBE && be.Op == op {
 				if (isNilIdent(info, be.Y) && objOf(info, be.X) == types.Object(param)) || (isNilIdent(info, be.X) && objOf(info, be.Y) == types.Object(param)) {
 					ok = true
 				}
@@ -283,6 +299,10 @@ func (nm *nilModel) guarded(info *types.Info, w *World, e ast.Expr, at ast.Node)
 		return (isNilIdent(info, be.Y) && sameObjExpr(info, be.X, e)) || (isNilIdent(info, be.X) && sameObjExpr(info, be.Y, e))
 	}
 	isFailedValidator := func(c ast.Expr) bool {
+		if call, isCall := unparen(c).(*ast.CallExpr); isCall && len(call.Args) == 1 {
+			cal := calleeOf(info, call)
+			return cal != nil && nm.inverse[cal] && sameObjExpr(info, call.Args[0], e)
+		}
 		u, ok := unparen(c).(*ast.UnaryExpr)
 		if !ok || u.Op != token.NOT {
 			return false
@@ -295,6 +315,15 @@ func (nm *nilModel) guarded(info *types.Info, w *World, e ast.Expr, at ast.Node)
 		return cal != nil && nm.validators[cal] && sameObjExpr(info, call.Args[0], e)
 	}
 	isPassedValidator := func(c ast.Expr) bool {
+		if u, isNot := unparen(c).(*ast.UnaryExpr); isNot && u.Op == token.NOT {
+			// !isBlank(e): the predicate says false only of a value that is there
+			call, ok := unparen(u.X).(*ast.CallExpr)
+			if !ok || len(call.Args) != 1 {
+				return false
+			}
+			cal := calleeOf(info, call)
+			return cal != nil && nm.inverse[cal] && sameObjExpr(info, call.Args[0], e)
+		}
 		call, ok := unparen(c).(*ast.CallExpr)
 		if !ok || len(call.Args) != 1 {
 			return false
@@ -1080,6 +1109,9 @@ func (nm *nilModel) returnedNodeInvariant(f *FuncInfo, e ast.Expr) string {
 			if !ok || !types.Identical(tv.Type, owner) {
 				continue
 			}
+			if nm.underEmptySplit(g, ret) {
+				continue // `if len(parts) == 0 { return ... }` with parts := strings.Split(s, "."): never taken
+			}
 			o := objOf(ginfo, ret.Results[0])
 			if o == nil {
 				return ""
@@ -1113,6 +1145,74 @@ func (nm *nilModel) returnedNodeInvariant(f *FuncInfo, e ast.Expr) string {
 		return ""
 	}
 	return fmt.Sprintf("the node comes from the Pratt entry, and every registered parse function returning %s assigns %s before returning (%d return site(s))", typeStr(owner), fld.Name(), n)
+}
+
+// underEmptySplit: the statement sits in the body of `if len(x) == 0` (or `< 1`), x a local whose only assignment is
+// strings.Split with a constant non-empty separator: Split then returns at least one element and the body never runs.
+func (nm *nilModel) underEmptySplit(g *FuncInfo, at ast.Node) bool {
+	info := g.Pkg.TypesInfo
+	w := nm.w
+	var child ast.Node = at
+	for p := w.Parent(at); p != nil; child, p = p, w.Parent(p) {
+		switch x := p.(type) {
+		case *ast.FuncDecl, *ast.FuncLit:
+			return false
+		case *ast.IfStmt:
+			if child != ast.Node(x.Body) || x.Init != nil {
+				continue
+			}
+			be, ok := unparen(x.Cond).(*ast.BinaryExpr)
+			if !ok {
+				continue
+			}
+			c, ok := unparen(be.X).(*ast.CallExpr)
+			if !ok || builtinName(info, c) != "len" || len(c.Args) != 1 {
+				continue
+			}
+			k, isC := constInt(info, be.Y)
+			if !isC || !((be.Op == token.EQL && k == 0) || (be.Op == token.LSS && k == 1) || (be.Op == token.LEQ && k == 0)) {
+				continue
+			}
+			o := objOf(info, c.Args[0])
+			if o == nil {
+				continue
+			}
+			nDef, fromSplit := 0, false
+			ast.Inspect(g.Decl.Body, func(n ast.Node) bool {
+				switch s := n.(type) {
+				case *ast.AssignStmt:
+					for i, l := range s.Lhs {
+						if objOf(info, l) != o {
+							continue
+						}
+						nDef++
+						if len(s.Lhs) == len(s.Rhs) {
+							if call, isCall := unparen(s.Rhs[i]).(*ast.CallExpr); isCall && funcIs(calleeOf(info, call), "strings", "Split") && len(call.Args) == 2 {
+								if sep, isStr := constString(info, call.Args[1]); isStr && sep != "" {
+									fromSplit = true
+								}
+							}
+						}
+					}
+				case *ast.ValueSpec:
+					for _, nme := range s.Names {
+						if info.Defs[nme] == o {
+							nDef += 2 // declared separately: may still be the nil slice
+						}
+					}
+				case *ast.UnaryExpr:
+					if s.Op == token.AND && objOf(info, s.X) == o {
+						nDef += 2
+					}
+				}
+				return true
+			})
+			if nDef == 1 && fromSplit {
+				return true
+			}
+		}
+	}
+	return false
 }
 
 // fromPratt: the expression denotes a node produced by the Pratt entry.
